@@ -49,6 +49,10 @@ class _P(Policy):
         # "apply the flat operator" = its unary composition applied to its binary operator: a small method of the operator type
         if b.get("kind") == "AssocFn" and "FlatOp<" in (b.get("impl_self_ty") or "") and b.get("name") == "apply" and len(b["blocks"]) <= 12:
             return True
+        # a shared helper for the position bookkeeping (`shift_down_after(&mut positions, removed)`)
+        if b.get("kind") == "Fn" and len(b["blocks"]) <= 40 and b["path"].startswith("expression::") and any(
+                re.match(r"^&mut (\[usize\]|smallvec::SmallVec<\[usize;|std::vec::Vec<usize)", b["locals"][i]["ty"]) for i in range(1, b["arg_count"] + 1)):
+            return True
         return b.get("kind") == "AssocFn" and b.get("impl_self_ty") and b.get("impl_self_ty") == root.get("impl_self_ty") \
             and not str(b.get("vis", "")).startswith("Public") and b.get("name") != root.get("name")
 
